@@ -3,6 +3,7 @@ import VtProofs.Prim
 import VtProofs.MvtTables
 import VtProofs.MvtOps
 import VtProofs.MvtCodec
+import VtProofs.MvtShape
 /-!
 # C11 – updating vector-tile properties leaves everything else untouched; PBF round trips
 
@@ -16,7 +17,7 @@ entries.  Decoding and re-encoding any valid vector tile without changes preserv
 All theorems are about the model `VtModel.Prim` / `VtModel.Mvt` (tied to the code by `bin/check C11`).
 -/
 namespace VtProps.C11
-open VtModel VtModel.Prim VtModel.Mvt VtProofs.Prim VtProofs.MvtTables VtProofs.MvtOps VtProofs.MvtCodec
+open VtModel VtModel.Prim VtModel.Mvt VtProofs.Prim VtProofs.MvtTables VtProofs.MvtOps VtProofs.MvtCodec VtProofs.MvtShape
 
 /-! ## 1. primitives -/
 
@@ -318,12 +319,28 @@ theorem tile_roundtrip_sem (t : Tile) (ht : TileOk t) :
     (decodeTile (encodeTile t)).map semTile = .ok (semTile t) := by
   rw [tile_roundtrip t ht]; rfl
 
-/-- decoding, re-encoding and decoding again gives what the first decoding gave: re-encoding a tile
-    from any encoder does not change its content as this decoder reads it (agreement of this decoder
-    with the MVT specification is the subject of the correspondence check with the independent decoder) -/
-theorem reencode_stable (b : Bytes) (t : Tile) (h : decodeTile b = .ok t) (ht : TileOk t) :
+/-- whatever `from_blob` returns is a tile that `to_blob` / `from_blob` reproduce exactly: strings are
+    UTF-8, float payloads have 4 / 8 bytes, integers are in range, tag ids are `u32`, geometry types
+    ≤ 3, extent / version are `u32` (`decodeTile_shape`, an invariant of the four reader loops). The only
+    remaining premise is that the re-encoded tile is shorter than 2^64 bytes. -/
+theorem decoded_tile_ok (b : Bytes) (t : Tile) (h : decodeTile b = .ok t) (hl : (encodeTile t).length < U64) :
+    TileOk t :=
+  decodeTile_ok b t h hl
+
+/-- **C11 (second sentence, full strength).** For EVERY byte string the decoder accepts – tiles of any
+    encoder, any field order, duplicate / unused table entries, non-minimal varints, int64 or sint64
+    values – decoding, re-encoding and decoding again gives exactly what the first decoding gave
+    (structure, hence content).  Premise: the re-encoded tile is shorter than 2^64 bytes, which holds
+    for anything that fits a 64-bit address space.  (That the first decoding reads the tile as the MVT
+    specification says is the subject of the correspondence with the independent decoder.) -/
+theorem reencode_stable (b : Bytes) (t : Tile) (h : decodeTile b = .ok t) (hl : (encodeTile t).length < U64) :
     decodeTile (encodeTile t) = decodeTile b := by
-  rw [h]; exact tile_roundtrip t ht
+  rw [h]; exact tile_roundtrip t (decoded_tile_ok b t h hl)
+
+/-- … and re-encoding is idempotent on bytes: a second decode / encode cycle reproduces the bytes of the first -/
+theorem reencode_idempotent (b : Bytes) (t : Tile) (h : decodeTile b = .ok t) (hl : (encodeTile t).length < U64) :
+    (decodeTile (encodeTile t)).map encodeTile = .ok (encodeTile t) := by
+  rw [reencode_stable b t h hl, h]; rfl
 
 example : TileOk ⟨[]⟩ := by simp [TileOk, encodeTile, U64]
 example : ValueOk (.uint 5) ∧ ValueOk (.int (-(2:Int)^63)) ∧ ValueOk (.str [97]) := by
